@@ -139,6 +139,7 @@ func (d *driver) legacyScenario() {
 		conn.Close()
 		d.w.mu.Lock()
 		d.w.logf(nil, "ev|lgdrop")
+		li2.lastAck = nil // the legacy rows are gone: a cache loss
 		d.w.mu.Unlock()
 		d.stats["legacy-dropped"]++
 		probe()
